@@ -578,6 +578,16 @@ for _p in ('C09', 'C10', 'C11'):
     PROPS[_p]['units'] = PROPS[_p]['units'] + ['pollsignal_verus']
     PROPS[_p]['trusted'] = PROPS[_p]['trusted'] + ['Verus unit pollsignal_verus: assumed contracts of Handle::is_closed (monotone flag), Pending::next and SignalDelivery::poll_pending (verus/pollsignal/prelude_p.rs; each proved on the real bodies and the real 128-slot table by Kani: C11.STICKY, C09.SCAN-ALL, C10.ADVANCE-ON-NONE, C11.NO-BLOCK-AFTER-CLOSE, C09.DRAIN-THEN-SCAN); stand-ins for the sealed Exfiltrator trait, AsRawFd, SignalDelivery (only `handle` is named); rewrites P0-P4 of the extraction; termination of the loop not verified']
 
+# round 3: the delivery side (dispatcher) and the registration order are now discharged unboundedly by Verus on the extracted text
+PROPS['C02']['level'] = 'proof'
+PROPS['C02']['explanation'] = ('Verus proves on the text of the dispatcher `handler` extracted from /repo on every run, for EVERY snapshot (any number of signals and actions) and every fallback value: one delivery calls exactly the previous handler of that signal\'s slot once, then every action of that signal in the ONE snapshot it read, once each, in increasing id order, and nothing else (also at early returns: the contract is a requires/ensures pair). '
+    'Verus proves on the extracted mutators that every registration gets an id above all ids of that signal (so id order = registration order), that each mutator publishes once iff the view changes and changes exactly the addressed action. '
+    'That the snapshot a delivery reads is one a mutator published, and stays valid, is C01. Kani per-operation / history harnesses on the real crate (bounded state shape) stay as cross-check, as source of counterexamples, and for trees whose restructured code loses the Verus anchors.')
+PROPS['C04']['level'] = 'proof'
+PROPS['C04']['explanation'] = ('Kani proves Prev::execute complete (all dispositions / flags) and that Slot::new keeps the disposition returned by the installing sigaction call. Verus proves on the extracted dispatcher, for every snapshot: the slot\'s previous handler is the first call of every delivery and is called once, also with zero actions; without a slot the fallback is executed iff it is for this signal. '
+    'Verus proves on the extracted register_unchecked_impl, for every registry state: first registration = fallback for this signal published, then the sigaction call, then the slot published (three events, this order, under the data lock); later registrations touch neither sigaction nor the fallback; the published slot carries the prev of Slot::new. '
+    'The delivery landing between the sigaction call and the publication is covered by the Kani harness that injects it at that instant (bounded state shape) and by composing the two Verus contracts (fallback present and for this signal => executed once).')
+
 # quick tier must stay well under 900 s per check (vp check): the slowest bounded cross-check harnesses run in the thorough
 # tier only for the properties whose unbounded Verus obligations supersede them
 PROPS['C05']['quick_drop'] = ['c04_op_register_vacant', 'c05_op_register_occupied_small', 'c02_hist_order', 'c05_hist_reregister']
